@@ -45,7 +45,12 @@ pub fn compress_block<M: Matcher>(state: &mut CompressState<M>, output: &mut Vec
 
     // sequences section
 
+    #[cfg(feature = "verif_hooks")]
+    crate::verif::enc_event(crate::verif::EncEvent::Sequences {
+        num_sequences: sequences.len() as u32,
+    });
     if sequences.is_empty() {
+        vhit!(enc_seq_none);
         writer.write_bits(0u8, 8);
     } else {
         encode_seqnum(sequences.len(), &mut writer);
@@ -222,6 +227,13 @@ fn encode_sequences(
 
 fn encode_seqnum(seqnum: usize, writer: &mut BitWriter<impl AsMut<Vec<u8>>>) {
     const UPPER_LIMIT: usize = 0xFFFF + 0x7F00;
+    // which form a sequence count of this size needs according to the format
+    #[cfg(feature = "verif_hooks")]
+    match seqnum {
+        0..=127 => vhit!(enc_seqnum_1byte),
+        128..=0x7EFF => vhit!(enc_seqnum_2byte),
+        _ => vhit!(enc_seqnum_3byte),
+    }
     match seqnum {
         1..=127 => writer.write_bits(seqnum as u32, 8),
         128..=0x7FFF => {
@@ -305,6 +317,13 @@ fn encode_offset(len: u32) -> (u8, u32, usize) {
 }
 
 fn raw_literals(literals: &[u8], writer: &mut BitWriter<&mut Vec<u8>>) {
+    vhit!(enc_lit_raw);
+    #[cfg(feature = "verif_hooks")]
+    crate::verif::enc_event(crate::verif::EncEvent::Literals {
+        mode: 0,
+        raw_fallback: false,
+        num_literals: literals.len() as u32,
+    });
     writer.write_bits(0u8, 2);
     writer.write_bits(0b11u8, 2);
     writer.write_bits(literals.len() as u32, 20);
@@ -365,6 +384,22 @@ fn compress_literals(
     let total_len = (writer.index() - reset_idx) / 8;
 
     // If encoded len is bigger than the raw literals we are better off just writing the raw literals here
+    #[cfg(feature = "verif_hooks")]
+    {
+        use crate::verif::{enc_event, hit, EncEvent, Feat};
+        if total_len >= literals.len() {
+            hit(Feat::enc_lit_raw_fallback);
+        } else if new_table {
+            hit(Feat::enc_lit_huf_new);
+        } else {
+            hit(Feat::enc_lit_huf_treeless);
+        }
+        enc_event(EncEvent::Literals {
+            mode: if new_table { 2 } else { 3 },
+            raw_fallback: total_len >= literals.len(),
+            num_literals: literals.len() as u32,
+        });
+    }
     if total_len >= literals.len() {
         writer.reset_to(reset_idx);
         raw_literals(literals, writer);
@@ -373,5 +408,105 @@ fn compress_literals(
         Some(new_encoder_table)
     } else {
         None
+    }
+}
+
+/// Verification hooks: access to the private mapping functions and header writers
+#[cfg(feature = "verif_hooks")]
+pub mod verif_hooks {
+    use super::*;
+
+    pub fn encode_literal_length(len: u32) -> (u8, u32, usize) {
+        super::encode_literal_length(len)
+    }
+
+    pub fn encode_match_len(len: u32) -> (u8, u32, usize) {
+        super::encode_match_len(len)
+    }
+
+    pub fn encode_offset(len: u32) -> (u8, u32, usize) {
+        super::encode_offset(len)
+    }
+
+    /// The bytes the compressor writes for a number of sequences
+    pub fn encode_seqnum(seqnum: usize) -> Vec<u8> {
+        let mut writer = BitWriter::new();
+        super::encode_seqnum(seqnum, &mut writer);
+        writer.dump()
+    }
+
+    /// The complete literals section the compressor writes for raw literals
+    pub fn raw_literals(literals: &[u8]) -> Vec<u8> {
+        let mut out = Vec::new();
+        let mut writer = BitWriter::from(&mut out);
+        super::raw_literals(literals, &mut writer);
+        writer.flush();
+        out
+    }
+
+    /// The complete literals section the compressor writes when it tries to compress literals.
+    /// Returns the section and the table that would be kept for the next block
+    pub fn compress_literals(
+        literals: &[u8],
+        last_table: Option<&huff0_encoder::HuffmanTable>,
+    ) -> (Vec<u8>, Option<huff0_encoder::HuffmanTable>) {
+        let mut out = Vec::new();
+        let mut writer = BitWriter::from(&mut out);
+        let table = super::compress_literals(literals, last_table, &mut writer);
+        writer.flush();
+        (out, table)
+    }
+
+    /// The sequences section (count, modes, tables, bitstream) the compressor writes for these sequences (ll, ml, offset value)
+    pub fn encode_sequences_section(seqs: &[(u32, u32, u32)]) -> Vec<u8> {
+        let sequences = seqs
+            .iter()
+            .map(|(ll, ml, of)| crate::blocks::sequence_section::Sequence {
+                ll: *ll,
+                ml: *ml,
+                of: *of,
+            })
+            .collect::<Vec<_>>();
+        let mut out = Vec::new();
+        let mut writer = BitWriter::from(&mut out);
+        super::encode_seqnum(sequences.len(), &mut writer);
+        let default_ll = crate::fse::fse_encoder::default_ll_table();
+        let default_ml = crate::fse::fse_encoder::default_ml_table();
+        let default_of = crate::fse::fse_encoder::default_of_table();
+        let ll_mode = choose_table(
+            None,
+            &default_ll,
+            sequences
+                .iter()
+                .map(|seq| super::encode_literal_length(seq.ll).0),
+            9,
+        );
+        let ml_mode = choose_table(
+            None,
+            &default_ml,
+            sequences
+                .iter()
+                .map(|seq| super::encode_match_len(seq.ml).0),
+            9,
+        );
+        let of_mode = choose_table(
+            None,
+            &default_of,
+            sequences.iter().map(|seq| super::encode_offset(seq.of).0),
+            8,
+        );
+        writer.write_bits(encode_fse_table_modes(&ll_mode, &ml_mode, &of_mode), 8);
+        encode_table(&ll_mode, &mut writer);
+        encode_table(&of_mode, &mut writer);
+        encode_table(&ml_mode, &mut writer);
+        super::encode_sequences(
+            &sequences,
+            &mut writer,
+            ll_mode.as_ref(),
+            ml_mode.as_ref(),
+            of_mode.as_ref(),
+        );
+        writer.flush();
+        out
     }
 }
